@@ -194,4 +194,17 @@ CLAIMS["C12"] = {
     "note": BASE_NOTE + "Partial: preemption inside in-memory sections on a multi-thread runtime (DashMap shards, relaxed atomics) is not in "
             "the model; the model abstracts node contents to epoch stamps.",
 }
+CLAIMS["C19"] = {
+    "text": "Proved in Lean over the wire model (Proto.lean): every proof type converts to its protobuf message and back to an identical "
+            "value (ten typed round trips, for every well-formed value: labels <= 256 bits, 32-byte digests); over-long labels and "
+            "wrong-size digests are rejected by the conversion; varints round-trip; the generic parser inverts the canonical writer "
+            "for every schema-conformant message of nesting depth <= 12 (wire_roundtrip, up to field-order equivalence, which the "
+            "conversions cannot observe), hence lookup / history / append-only proofs survive encode -> bytes -> parse -> convert "
+            "unchanged; audit blob names round-trip. Decoding is a total function in the model; that every model error is a Rust Err "
+            "and not a panic, and that the parser model (incl. its leniencies: a nested message longer than the data is accepted at "
+            "depth 1, unterminated inner groups) is the generated code's behaviour, is decided by the correspondence run on real and "
+            "corrupted encodings. 'If it still verifies, same result' is checked by the oracle on the real verifiers and is a corollary "
+            "of lookup_sound / history_sound / audit_sound.",
+    "note": BASE_NOTE + "rust-protobuf itself is modelled, not verified.",
+}
 NOT_YET = {}
